@@ -1149,7 +1149,9 @@ class Converter:
             # Ideally, live_out should never be None here. But handle this conditionally
             # due to some existing usage.
             live_def_set = live_out.intersection(live_def_set)
-        live_defs = list(live_def_set)
+        # Sorted, so that the order of the If outputs (and the generated names) does not
+        # depend on set iteration order, i.e. on hash randomisation.
+        live_defs = sorted(live_def_set)
         test = self._translate_expr(stmt.test, "cond")
         lineno = self._source_of(stmt).lineno
         then_graph = self._translate_block(stmt.body, f"thenGraph_{lineno}", live_defs)
